@@ -452,3 +452,11 @@ Proof.
   unfold hw_tick. destruct nf as [s|]; [|reflexivity]. intros H.
   destruct (tw || tr); [apply set_nthz_other; exact H|reflexivity].
 Qed.
+
+(** running a monitor over a recorded trace of (inputs, outputs) per clock: the verdict of every clock
+    (used for the sensitivity examples in Props/C20_Properties.v) *)
+Fixpoint mon_trace (mon : monitor) (st : list Z) (steps : list (list value * list value)) : list bool :=
+  match steps with
+  | [] => []
+  | (i, o) :: r => let '(st', ok) := mon st i o in ok :: mon_trace mon st' r
+  end.
